@@ -69,6 +69,18 @@ def drive_c18(sess, rnd, cfg, record):
             op = g.op_batt(m, tb)
         if op is None:
             continue
+        if R.chance(0.25):
+            # a load is moved (component count unchanged) and batt_life() is the
+            # first analysis after it
+            mv = g.op_move(m)
+            if mv is not None:
+                yield _emit(record, mv)
+                for e in g.pending:
+                    yield _emit(record, e)
+                g.pending = []
+                sess.stats["batt_life_first_analysis_after_move"] += 1
+                if op.get("battery") not in sess.model.comps and op.get("battery") not in sess.model.rails.values():
+                    continue
         yield _emit(record, op)
         # same battery, another clock: the result must not depend on it
         if R.chance(0.3) and "pfault" not in op:
